@@ -395,6 +395,8 @@ func c16More(c *Ctx) {
 	c.Rule("C16.R6", "buffered data survives the close: receiver.buffer is appended to only by processIntoBuffer, consumed only by the receiver's read function, never reset, truncated, exposed or replaced (its bytes were acknowledged to the peer; after a local close reads return them and then end-of-stream) (E4 who-may-call, classified by method)")
 	closeOnceRule(c, "C16.R2", []string{"tubes", "common"}, 15)
 	recvBufferOwners(c, "C16.R6")
+	c.Rule("C16.R7", "no send on the muxer's queue after close: every send on Unreliable.sendQueue forwards an item taken from the tube's own queue (the sender goroutine, joined by Close) or lies in a critical section of lifecycleMu in which u.state was loaded and found not closed (Muxer.Stop closes the queue once every Close has returned; a send outside the critical section panics on the closed queue) (E1 + E5)")
+	unreliableSendRule(c, "C16.R7")
 
 	// sends on the sender's queues
 	fSQ := P.Field("tubes", "sender", "sendQueue")
@@ -921,4 +923,118 @@ func recvBufferOwners(c *Ctx, rule string) {
 		})
 	}
 	c.Floor(rule, "uses of receiver.buffer", n, 4)
+}
+
+// unreliableSendRule (C16.R7, shared as C11.R6): nothing is sent on the muxer's queue once the tube may have
+// finished closing. Muxer.Stop closes that queue after every tube's Close has returned; Unreliable.Close
+// takes lifecycleMu, so a producer that tests the state and sends inside one critical section of
+// lifecycleMu cannot overlap with a completed Close. Every send on Unreliable.sendQueue must therefore
+//   - forward an item taken from the tube's own queue (the sender goroutine, which Close joins), or
+//   - happen with lifecycleMu held, after u.state was loaded in the same critical section and found
+//     not closed on the path.
+// A send outside the critical section can hit the closed queue: "send on closed channel" in the muxer's
+// receive goroutine, triggered by a peer that repeats its REQ while the local side shuts down.
+func unreliableSendRule(c *Ctx, rule string) {
+	P := c.P
+	fSQ := P.Field("tubes", "Unreliable", "sendQueue")
+	fMu := P.Field("tubes", "Unreliable", "lifecycleMu")
+	fState := P.Field("tubes", "Unreliable", "state")
+	if fSQ == nil || fMu == nil || fState == nil {
+		c.Undecided(rule, "tubes.Unreliable.sendQueue", "fields not found")
+		return
+	}
+	closedC := pkgConst(P, "tubes", "closed")
+	constOf := func(v ssa.Value) (int64, bool) {
+		if mi, ok := v.(*ssa.MakeInterface); ok {
+			v = mi.X
+		}
+		return constInt(v)
+	}
+	nSends := 0
+	for _, f := range P.ModuleFuncs("tubes") {
+		has := false
+		eachInstr(f, func(ins ssa.Instruction) {
+			if s, ok := ins.(*ssa.Send); ok && lastField(s.Chan) == fSQ {
+				has = true
+			}
+		})
+		if !has {
+			continue
+		}
+		name := FuncName(f)
+		c.Analysed(name)
+		fs := newFailSet()
+		n := 0
+		ok := walkAllOpts(c, rule, f, PathOpts{MaxVisits: 1, EmitTruncated: true}, func(p *Path) {
+			held, epoch := false, 0
+			type ld struct {
+				call  *ssa.Call
+				epoch int
+			}
+			var loads []ld
+			p.ForEach(func(i int, ins ssa.Instruction) bool {
+				switch x := ins.(type) {
+				case *ssa.Call:
+					if fn := calleeFunc(&x.Call); fn != nil && !x.Call.IsInvoke() && len(x.Call.Args) > 0 {
+						switch {
+						case fn.Name() == "Lock" && lastField(x.Call.Args[0]) == fMu:
+							held = true
+							epoch++
+						case fn.Name() == "Unlock" && lastField(x.Call.Args[0]) == fMu:
+							held = false
+						case fn.Name() == "Load" && lastField(x.Call.Args[0]) == fState:
+							loads = append(loads, ld{x, epoch})
+						}
+					}
+				case *ssa.Send:
+					if lastField(x.Chan) != fSQ {
+						return true
+					}
+					n++
+					// the drain: forwards what it took from a channel
+					_, _, nodes := provenanceNodes(p, x.X, i)
+					for _, nd := range nodes {
+						if u, ok := nd.(*ssa.UnOp); ok && u.Op == token.ARROW {
+							return true
+						}
+						if _, ok := nd.(*ssa.Next); ok {
+							return true
+						}
+					}
+					if !held {
+						fs.add("send-in-critical-section", "a frame is sent on the muxer's queue without holding lifecycleMu: Close (and then Muxer.Stop, which closes the queue) can complete between the state test and the send, and the send panics on the closed queue", x, p)
+						return true
+					}
+					okState := false
+					for _, l := range loads {
+						if l.epoch != epoch {
+							continue
+						}
+						for key, val := range p.FactsAt(i) {
+							if key.op != token.EQL || key.y == nil {
+								continue
+							}
+							for _, pr := range [][2]ssa.Value{{key.x, key.y}, {key.y, key.x}} {
+								if strip(pr[0]) != ssa.Value(l.call) {
+									continue
+								}
+								if k, isC := constOf(pr[1]); isC && ((k == closedC && !val) || (k != closedC && val)) {
+									okState = true
+								}
+							}
+						}
+					}
+					if !okState {
+						fs.add("send-in-critical-section", "a frame is sent on the muxer's queue in a critical section of lifecycleMu that did not find the tube state different from closed", x, p)
+					}
+				}
+				return true
+			})
+		})
+		nSends += n
+		if ok {
+			fs.report(c, rule, name, []string{"send-in-critical-section"}, P.Pos(f.Pos()), "every send is the drain or lies in a critical section that found the tube not closed")
+		}
+	}
+	c.Floor(rule, "sends on Unreliable.sendQueue on paths", nSends, 3)
 }
